@@ -8,14 +8,79 @@
    The model side is the specification "rendering returns": outcome Ok, rounds
    within maxLoops (Layout/PageLoop.v), root = first element child
    (Css/FindRoot.v, repaired version).
+   A second kind of case (CPages) is the first pagination round of a document
+   recorded page by page through the hook layout.VerifPageTrace and replayed on
+   the model of remakePage / makeAllPages (see [replay]).
    codes: 0 agree | 1 panic | 3 fatal | 4 hang | 5 more than maxLoops rounds |
-          6 root differs from the model | (2 is reserved for "skipped") *)
+          6 root differs from the model | 7 page bookkeeping differs from the model |
+          8 a reported footnote was not placed | 9 a page made no progress |
+          (2 is reserved for "skipped") *)
 From Verif Require Export Base.GoSem Css.FindRoot Layout.PageLoop.
 From Coq Require Import List NArith ZArith.
 Import ListNotations.
 
+(* One call of remakePage during the first pagination round, as recorded by the
+   hook layout.VerifPageTrace (html/layout/verif_export_c01.go):
+     blank              the page was made as a blank page
+     right, brk_in, res_in    pageMaker[index] read by the page (break: 0 any, 1 left, 2 right;
+                        resume points: 0 = nil, k > 0 = k-th distinct resume point, numbered
+                        by the harness in order of first appearance)
+     res_out, brk_out   resume point returned / break stored for the next page
+     fn_in, fn_out      len(context.reportedFootnotes) before / after the page
+     broken             broken out-of-flow boxes handed to the next page *)
+Inductive pstep :=
+| PStep (blank rgt : bool) (brk_in res_in res_out brk_out fn_in fn_out broken : N).
+
 Inductive case :=
-| CRun (outcome : N) (rounds : N) (top : list topnode) (root_idx : Z) (root_kind : N).
+| CRun (outcome : N) (rounds : N) (top : list topnode) (root_idx : Z) (root_kind : N)
+(* the pages of the first round, the number of footnote boxes of the document
+   (informative: the bound F of the theorem is existential, and /repo may report
+   the same footnote twice), and whether the recording stopped at its page cap
+   before the loop ended *)
+| CPages (steps : list pstep) (footnotes : N) (truncated : bool).
+
+Definition brk_of (n : N) : brk := match n with 1%N => BLeft | 2%N => BRight | _ => BAny end.
+Definition res_of (n : N) : option N := if N.eqb n 0 then None else Some n.
+Definition page_eqb (a b : page) : bool :=
+  match a, b with PContent, PContent | PBlank, PBlank => true | _, _ => false end.
+
+(* Replay of a recorded first round on the model: every page goes through
+   [remake_page] (Layout/PageLoop.v) with the layout of that ONE page instantiated
+   by what the implementation recorded; compared: the page-maker item the page
+   read, the blank-page decision, the resume point and break handed to the next
+   page, the exit test of makeAllPages.  On the recorded pages the hypotheses of
+   C01_page_loop_terminates are checked as well:
+     8   a blank page (no content: only the loop over the reported footnotes can
+         report) reports more footnotes than it received, or does not place the first
+         one it received (H_fn_blank / report_loop_first_placed)
+     9   a page with content returned a resume point seen before: no measure can
+         decrease (H_progress)
+     7   the bookkeeping of remakePage / makeAllPages differs from the model *)
+Fixpoint replay (steps : list pstep) (F : nat) (truncated : bool)
+         (i : nat) (pm : list (item N)) (fn : nat) (maxid : N) : N :=
+  match steps with
+  | [] => if truncated then 0%N else 7%N
+  | PStep blank rgt brk_in res_in res_out brk_out fn_in fn_out broken :: rest =>
+      let lc := fun (_ : option N) (_ : nat) =>
+                  ((res_of res_out, brk_of brk_out, N.to_nat fn_out), (false, false)) in
+      let lb := fun (_ : nat) => (N.to_nat fn_out, (false, false)) in
+      match idx 909 pm i, remake_page N N.eqb lc lb (fun _ => false) i pm fn with
+      | Ok it, Ok (pg, ra, fn', pm') =>
+          if negb (resume_eqb N N.eqb (i_resume it) (res_of res_in) && brk_eqb (i_brk it) (brk_of brk_in)
+                   && Bool.eqb (i_right it) rgt && Nat.eqb fn (N.to_nat fn_in)) then 7%N
+          else if negb (page_eqb pg (if blank then PBlank else PContent)) then 7%N
+          else if negb (resume_eqb N N.eqb ra (res_of res_out)) then 7%N
+          else if negb (match nth_error pm' (S i) with
+                        | Some nx => brk_eqb (i_brk nx) (brk_of brk_out)
+                        | None => false end) then 7%N
+          else if (blank && (negb (Nat.leb fn' fn) || negb (Nat.eqb fn 0) && negb (Nat.ltb fn' fn)))%bool then 8%N
+          else if (negb blank && is_some ra && negb (N.ltb maxid res_out))%bool then 9%N
+          else if (is_none ra && Nat.eqb fn' 0)%bool then
+            match rest with [] => if truncated then 7%N else 0%N | _ => 7%N end
+          else replay rest F truncated (S i) pm' fn' (N.max maxid res_out)
+      | _, _ => 7%N
+      end
+  end.
 
 Definition kind_code (k : topnode) : N :=
   match k with Doctype => 0 | Comment => 1 | Elem => 2 | Text => 3 | Other => 4 end%N.
@@ -29,6 +94,14 @@ Definition model_out (c : case) : N * N * Z * N :=
       | Ok (Some i) => (0%N, N.of_nat max_loops_default, i, kind_code (kind_at top i))
       | _ => (0%N, N.of_nat max_loops_default, (-1)%Z, 4%N)
       end
+  | CPages steps F truncated =>
+      (* the verdict of the replay (0 = the recorded round is a run of the model on
+         which the hypotheses hold); the other components are not used *)
+      (match steps with
+       | PStep _ rgt brk_in _ _ _ _ _ _ :: _ =>
+           replay steps (N.to_nat F) truncated 0 (initial_page_maker N (brk_of brk_in) rgt) 0 0%N
+       | [] => 7%N
+       end, 0%N, 0%Z, 0%N)
   end.
 
 Definition check (c : case) : N :=
@@ -45,6 +118,7 @@ Definition check (c : case) : N :=
       | 2%N => 3%N
       | _ => 4%N
       end
+  | CPages _ _ _ => let '(v, _, _, _) := model_out c in v
   end.
 
 Fixpoint mismatches (i : N) (cs : list case) : list (N * N) :=
